@@ -1887,7 +1887,8 @@ def stream_reuse(ctx: Ctx):
                                 b = site_call(sk, api, _lie(x0.clone(), lt), wrap_second(sk, ycase, yt.clone()))
                                 label = f"{sk[1]} with partner lshape {sh}"
                         except Exception as e:
-                            ctx.fail(case, f"raises: {lt}.{call[1]} on a re-used {holder} operand raises {type(e).__name__}: {str(e)[:80]}")
+                            nm = call[1] if call[0] == "u" else f"{call[1][1]} (partner lshape {call[2]})"
+                            ctx.fail(case, f"raises: {lt}.{nm} on a re-used {holder} operand raises {type(e).__name__}: {str(e)[:80]}")
                             continue
                         if a.shape != b.shape or a.dtype != b.dtype or not torch.equal(torch.nan_to_num(_plain(a)), torch.nan_to_num(_plain(b))):
                             ctx.fail(case, f"reuse: {lt}.{label} on a {holder} object that was already used in {ci} calls differs from the "
